@@ -1,22 +1,12 @@
 #!/bin/bash
-# For every seeded change: apply to /repo (rebased patch if present), run the property's check (tier $1, default quick), revert.
-# Writes .work/logs/seeded.<name>.log and prints one line per change. Never commits anything to /repo.
+# For every seeded change under /verif/seeded: apply it to a scratch copy of /repo (tools/run_alt.sh; /repo itself is never
+# touched) and run the property's check (tier $1, default quick). One line per change; logs in .work/logs/alt.<name>.<ID>.<tier>.log
 tier=${1:-quick}; shift
 cd "$(dirname "$0")/.."
-mkdir -p .work/logs
 names=${@:-$(ls seeded)}
 for name in $names; do
   d=seeded/$name
-  pid=${name%%_*}
+  pid=${name:0:3}
   p=$d/patch.diff; [ -f $d/patch.rebased.diff ] && p=$d/patch.rebased.diff
-  if [ -n "$(git -C /repo status --porcelain)" ]; then echo "ABORT: /repo is dirty"; exit 3; fi
-  if ! git -C /repo apply --check $PWD/$p 2>/dev/null; then echo "$name patch-does-not-apply"; continue; fi
-  git -C /repo apply $PWD/$p
-  s=$(date +%s)
-  if [ -x checks/${pid,,}.py ]; then
-    bin/check $pid $tier > .work/logs/seeded.$name.log 2>&1; rc=$?
-    keys=$(grep -A1 '^VIOLATION' .work/logs/seeded.$name.log | grep -o 'key=[^ ]*' | sort -u | head -4 | tr '\n' ' ')
-  else rc=NA; keys=""; fi
-  git -C /repo checkout -- .
-  echo "$name check=$pid rc=$rc $(( $(date +%s) - s ))s $keys"
+  tools/run_alt.sh $PWD/$p $tier $pid | tail -1
 done
